@@ -373,8 +373,17 @@ impl ProcfsHandle {
         // NOTE: There is technically a race here, but it relies the target path
         //       being a magic-link and then another thing being mounted on top.
         //       This is the same race as below.
-        if self.readlink(base, subpath).is_err() {
-            return self.open(base, subpath, oflags).map(File::from);
+        match self.readlink(base, subpath) {
+            Ok(_) => {}
+            // readlinkat(2) on something that is not a symlink (or a path that
+            // does not exist) fails with ENOENT: not a symlink, do not follow.
+            Err(err) if err.kind() == ErrorKind::OsError(Some(libc::ENOENT)) => {
+                return self.open(base, subpath, oflags).map(File::from);
+            }
+            // Any other error says nothing about what the target is. Falling
+            // back to an O_NOFOLLOW open here would, after a transient failure
+            // (EMFILE, ENOMEM, ...), hand the caller the symlink itself.
+            Err(err) => return Err(err),
         }
 
         // Get a no-follow handle to the parent of the magic-link.
